@@ -668,6 +668,343 @@ impl<'a> G<'a> {
         RawCase { defs, files: vec![("main.rssl".to_string(), main)] }
     }
 
+    /// one header of the re-include stream; `g` = its guard macro, `lower` = names of headers it may include
+    fn guard_header(&mut self, kind: u64, i: usize, g: &str, lower: &[String]) -> String {
+        let fancy = self.r.chance(1, 4);
+        let mut d = |me: &mut Self, name: &str, args: &str| -> String {
+            if fancy {
+                me.directive(name, args)
+            } else if args.is_empty() {
+                format!("#{}{}", name, me.eol)
+            } else {
+                format!("#{} {}{}", name, args, me.eol)
+            }
+        };
+        let e = self.eol;
+        let gdef = if self.r.chance(1, 2) { g.to_string() } else { format!("{} 1", g) };
+        let inc = if lower.is_empty() { String::new() } else { format!("\"{}\"", self.r.pick(lower)) };
+        let mut b = String::new();
+        match kind {
+            // the classic include guard
+            0 => {
+                b += &d(self, "ifndef", g);
+                b += &d(self, "define", &gdef);
+                b += &format!("g{} A{}", i, e);
+                b += &d(self, "endif", "");
+            }
+            // a guard block with an #else group: the second include must deliver it
+            1 => {
+                b += &d(self, "ifndef", g);
+                b += &d(self, "define", &gdef);
+                b += &format!("f{} A{}", i, e);
+                b += &d(self, "else", "");
+                b += &format!("s{} B{}", i, e);
+                b += &d(self, "endif", "");
+            }
+            2 => {
+                b += &d(self, "ifndef", g);
+                b += &d(self, "define", &gdef);
+                b += &format!("f{}{}", i, e);
+                b += &d(self, "elif", "defined(A)");
+                b += &format!("ea{} A{}", i, e);
+                b += &d(self, "else", "");
+                b += &format!("eb{}{}", i, e);
+                b += &d(self, "endif", "");
+            }
+            3 => {
+                b += &d(self, "ifndef", g);
+                b += &d(self, "define", &gdef);
+                b += &format!("f{}{}", i, e);
+                b += &d(self, "elif", "!defined(B) || C == 7");
+                b += &format!("enb{} C{}", i, e);
+                b += &d(self, "endif", "");
+            }
+            // text / directives outside the guard block
+            4 => {
+                let w = self.r.below(4);
+                if w == 0 {
+                    b += &format!("pre{}{}", i, e);
+                }
+                b += &d(self, "ifndef", g);
+                b += &d(self, "define", &gdef);
+                b += &format!("g{}{}", i, e);
+                if self.r.chance(1, 2) {
+                    b += &d(self, "else", "");
+                    b += &format!("s{}{}", i, e);
+                }
+                b += &d(self, "endif", "");
+                match w {
+                    1 => b += &format!("post{} C{}", i, e),
+                    2 => b += &d(self, "define", "C 5"),
+                    3 => {
+                        b += &d(self, "ifdef", "A");
+                        b += &format!("tailA{}{}", i, e);
+                        b += &d(self, "endif", "");
+                    }
+                    _ => {}
+                }
+            }
+            5 => {
+                b += &d(self, "pragma", "once");
+                b += &format!("o{} A B{}", i, e);
+            }
+            6 => {
+                b += &d(self, "pragma", "once");
+                b += &d(self, "ifndef", g);
+                b += &d(self, "define", &gdef);
+                b += &format!("f{}{}", i, e);
+                b += &d(self, "else", "");
+                b += &format!("s{}{}", i, e);
+                b += &d(self, "endif", "");
+            }
+            // nested guards
+            7 => {
+                let gi = format!("{}_IN", g);
+                b += &d(self, "ifndef", g);
+                b += &d(self, "ifndef", &gi);
+                b += &d(self, "define", &gi);
+                b += &format!("in1_{}{}", i, e);
+                b += &d(self, "else", "");
+                b += &format!("in2_{}{}", i, e);
+                b += &d(self, "endif", "");
+                b += &d(self, "define", &gdef);
+                b += &d(self, "else", "");
+                b += &format!("out2_{}{}", i, e);
+                b += &d(self, "endif", "");
+            }
+            // the guard macro is defined by the includer (or from the API), never by the header
+            8 => {
+                b += &d(self, "ifndef", g);
+                b += &format!("nd{}{}", i, e);
+                b += &d(self, "else", "");
+                b += &format!("d{} {}{}", i, g, e);
+                b += &d(self, "endif", "");
+            }
+            // the header undefines its own guard on the second visit
+            9 => {
+                b += &d(self, "ifndef", g);
+                b += &d(self, "define", &gdef);
+                b += &format!("on{}{}", i, e);
+                b += &d(self, "else", "");
+                b += &d(self, "undef", g);
+                b += &format!("off{}{}", i, e);
+                b += &d(self, "endif", "");
+            }
+            // the "guard" is a macro of the includer
+            10 => {
+                b += &d(self, "ifndef", "A");
+                b += &format!("nA{}{}", i, e);
+                b += &d(self, "define", "A 3");
+                b += &d(self, "else", "");
+                b += &format!("hasA{} A{}", i, e);
+                b += &d(self, "undef", "A");
+                b += &d(self, "endif", "");
+            }
+            // inverted guard
+            11 => {
+                b += &d(self, "ifdef", g);
+                b += &format!("again{}{}", i, e);
+                b += &d(self, "else", "");
+                b += &d(self, "define", &gdef);
+                b += &format!("first{}{}", i, e);
+                b += &d(self, "endif", "");
+            }
+            12 => {
+                let c = if self.r.chance(1, 2) { format!("!defined({})", g) } else { format!("! defined {}", g) };
+                b += &d(self, "if", &c);
+                b += &d(self, "define", &gdef);
+                b += &format!("f{}{}", i, e);
+                b += &d(self, "else", "");
+                b += &format!("s{}{}", i, e);
+                b += &d(self, "endif", "");
+            }
+            // two blocks on the same guard
+            13 => {
+                b += &d(self, "ifndef", g);
+                b += &d(self, "define", &gdef);
+                b += &format!("a{}{}", i, e);
+                b += &d(self, "endif", "");
+                b += &d(self, "ifndef", g);
+                b += &format!("never{}{}", i, e);
+                b += &d(self, "else", "");
+                b += &format!("b{}{}", i, e);
+                b += &d(self, "endif", "");
+            }
+            // directives in the #else group of the guard: they must act on the second include
+            14 => {
+                b += &d(self, "ifndef", g);
+                b += &d(self, "define", &gdef);
+                b += &format!("f{}{}", i, e);
+                b += &d(self, "else", "");
+                b += &d(self, "define", "B 9");
+                if !inc.is_empty() {
+                    b += &d(self, "include", &inc);
+                }
+                b += &d(self, "undef", "C");
+                b += &d(self, "endif", "");
+            }
+            // comments and blank lines around the guard block
+            15 => {
+                b += &format!("// guard{e}{e}  /* c */{e}", e = e);
+                b += &d(self, "ifndef", g);
+                b += &d(self, "define", &gdef);
+                b += &format!("f{}{}", i, e);
+                if self.r.chance(2, 3) {
+                    b += &d(self, "else", "");
+                    b += &format!("s{}{}", i, e);
+                }
+                b += &d(self, "endif", "");
+                b += &format!("/* end */{e}{e}", e = e);
+                if self.r.chance(1, 2) {
+                    b.truncate(b.len() - e.len());
+                    b += "  ";
+                }
+            }
+            // wrappers: the header is reached through another header
+            16 => {
+                b += &format!("w{}a{}", i, e);
+                if !inc.is_empty() {
+                    b += &d(self, "include", &inc);
+                }
+                b += &format!("w{}b{}", i, e);
+            }
+            _ => {
+                b += &d(self, "ifndef", g);
+                b += &d(self, "define", &gdef);
+                if !inc.is_empty() {
+                    b += &d(self, "include", &inc);
+                }
+                b += &d(self, "else", "");
+                if !inc.is_empty() {
+                    b += &d(self, "include", &inc);
+                }
+                b += &format!("wagain{}{}", i, e);
+                b += &d(self, "endif", "");
+            }
+        }
+        b
+    }
+
+    /// the re-include stream: few headers of every guard shape, each included two or three times (directly and
+    /// through other headers) while the macros they test change between the includes.  C processes the file
+    /// every time it is named (only `#pragma once` may suppress it).
+    pub fn reinclude_case(&mut self) -> RawCase {
+        self.eol = if self.r.chance(1, 8) { "\r\n" } else { "\n" };
+        let e = self.eol;
+        self.defined_fns.clear();
+        self.defined_ops.clear();
+        let mut defs: Vec<(String, String)> = Vec::new();
+        let mut files: Vec<(String, String)> = Vec::new();
+        let mut guards: Vec<String> = Vec::new();
+        let nh = 1 + self.r.below(3) as usize;
+        let mut names: Vec<String> = Vec::new();
+        for i in 0..nh {
+            let kind = if i > 0 && self.r.chance(1, 3) { 16 + self.r.below(2) } else { self.r.below(16) };
+            let g = format!("H{}_G", i);
+            let body = self.guard_header(kind, i, &g, &names.clone());
+            self.kinds.add(&format!("reinc-header:{}", kind));
+            guards.push(g.clone());
+            if kind == 7 {
+                guards.push(format!("{}_IN", g));
+            }
+            let name = format!("h{}.h", i);
+            names.push(name.clone());
+            files.push((name, body));
+        }
+        if self.r.chance(1, 5) {
+            let g = self.r.pick(&guards).clone();
+            defs.push((g, self.r.pick(&["1", "", "0"]).to_string()));
+            self.kinds.add("reinc-api-guard");
+        }
+        if self.r.chance(1, 6) {
+            let d = *self.r.pick(&[("A", "1"), ("B", "0"), ("C", "7")]);
+            defs.push((d.0.to_string(), d.1.to_string()));
+        }
+        let mut main = String::new();
+        for n in VALUE_NAMES {
+            if self.r.chance(1, 3) {
+                main.push_str(&format!("#define {} {}{}", n, self.r.pick(&["0", "1", "7", "2"]), e));
+            }
+        }
+        let mut depth = 0usize;
+        let len = 3 + self.r.below(10) as usize;
+        let mut count = vec![0usize; nh];
+        let include = |me: &mut Self, main: &mut String, k: usize, count: &mut Vec<usize>| {
+            let spelled = if me.r.chance(1, 4) { format!("<{}>", names[k]) } else { format!("\"{}\"", names[k]) };
+            let l = if me.r.chance(1, 5) { me.directive("include", &spelled) } else { format!("#include {}{}", spelled, me.eol) };
+            main.push_str(&l);
+            count[k] += 1;
+        };
+        let flip = |me: &mut Self, main: &mut String| {
+            let g = me.r.pick(&guards).clone();
+            match me.r.below(5) {
+                0 | 1 => main.push_str(&format!("#define {}{}", g, me.eol)),
+                2 => main.push_str(&format!("#define {} 1{}", g, me.eol)),
+                _ => main.push_str(&format!("#undef {}{}", g, me.eol)),
+            }
+            me.kinds.add("reinc-flip-guard");
+        };
+        for i in 0..len {
+            match self.r.below(20) {
+                0..=8 => {
+                    let k = self.r.below(nh as u64) as usize;
+                    include(self, &mut main, k, &mut count);
+                }
+                9..=11 => flip(self, &mut main),
+                12 | 13 => {
+                    let n = *self.r.pick(VALUE_NAMES);
+                    if self.r.chance(1, 2) {
+                        main.push_str(&format!("#define {} {}{}", n, self.r.pick(&["0", "1", "7"]), e));
+                    } else {
+                        main.push_str(&format!("#undef {}{}", n, e));
+                    }
+                }
+                14 | 15 => main.push_str(&format!("t{} A B C{}", i, e)),
+                16 | 17 if depth < 3 => {
+                    let g = self.r.pick(&guards).clone();
+                    let o = match self.r.below(5) {
+                        0 => "#if 1".to_string(),
+                        1 => "#if 0".to_string(),
+                        2 => format!("#ifdef {}", g),
+                        3 => format!("#ifndef {}", g),
+                        _ => format!("#if defined({}) && A", g),
+                    };
+                    main.push_str(&o);
+                    main.push_str(e);
+                    depth += 1;
+                }
+                18 if depth > 0 => {
+                    main.push_str(&format!("#endif{}", e));
+                    depth -= 1;
+                }
+                _ => main.push_str(&format!("u{}{}", i, e)),
+            }
+        }
+        for _ in 0..depth {
+            main.push_str(&format!("#endif{}", e));
+        }
+        // at the top level: one header again (and again), with its macros changed in between or not
+        let k = self.r.below(nh as u64) as usize;
+        let times = 2 + self.r.below(2);
+        for _ in 0..times {
+            include(self, &mut main, k, &mut count);
+            if self.r.chance(1, 2) {
+                flip(self, &mut main);
+            }
+        }
+        self.kinds.add(&format!("reinc-max-includes-of-one-file:{}", count.iter().max().copied().unwrap_or(0).min(6)));
+        let mut probe = String::from("probe A B C");
+        for g in &guards {
+            probe.push(' ');
+            probe.push_str(g);
+        }
+        probe.push_str(e);
+        main.push_str(&probe);
+        self.kinds.add("raw-reinclude");
+        files.insert(0, ("main.rssl".to_string(), main));
+        RawCase { defs, files }
+    }
+
     /// very deep nesting
     pub fn deep_case(&mut self, n: usize) -> RawCase {
         self.eol = "\n";
